@@ -5,18 +5,22 @@
     Every lemma is stated for a reader in the middle of a stream (arbitrary trailing bytes [t],
     arbitrary allocation log) so that the decoders compose. *)
 From Coq Require Import ZArith List Bool Lia.
-From Geo Require Import Base.GoPrim Base.Bytes Gen.Codec Model.Codec.
+From Geo Require Import Base.GoPrim Base.Bytes Gen.CellID Gen.Codec Model.Codec.
 Import ListNotations.
 Local Open Scope Z_scope.
 
 Definition u64 (x : Z) : Prop := 0 <= x < 2 ^ 64.
 Definition point_ok (p : point) : Prop := let '(x, y, z) := p in u64 x /\ u64 y /\ u64 z.
+(** a vertex of a loop or polyline: coordinates are finite floats (the decoders reject NaN and
+    infinities since 4fc5f5f) *)
+Definition vertex_ok (p : point) : Prop :=
+  point_ok p /\ let '(x, y, z) := p in nonfinite_bits x = false /\ nonfinite_bits y = false /\ nonfinite_bits z = false.
 Definition rect_ok (r : rect) : Prop := u64 (r_lat_lo r) /\ u64 (r_lat_hi r) /\ u64 (r_lng_lo r) /\ u64 (r_lng_hi r).
 Definition cap_ok (c : cap) : Prop := point_ok (c_center c) /\ u64 (c_radius c).
 (** a Loop the lossless encoder can write and the decoder accepts: the vertex count is within
     maxEncodedVertices (Loop.encode itself does not check it) and the depth fits its 32-bit field *)
 Definition loop_ok (l : loop) : Prop :=
-  Forall point_ok (l_vertices l) /\ len (l_vertices l) <= s2_maxEncodedVertices
+  Forall vertex_ok (l_vertices l) /\ len (l_vertices l) <= s2_maxEncodedVertices
   /\ 0 <= l_depth l < 2 ^ 32 /\ rect_ok (l_bound l).
 Definition polygon_ok (p : polygon) : Prop :=
   Forall loop_ok (p_loops p) /\ rect_ok (p_bound p).
@@ -44,6 +48,15 @@ Lemma read_point_app p t lg : point_ok p -> read_point ((enc_point p ++ t) @ lg)
 Proof.
   destruct p as [[x y] z]. intros (Hx & Hy & Hz). unfold read_point, enc_point. norm_app.
   rewrite read_u64_app by auto. rewrite read_u64_app by auto. now rewrite read_u64_app by auto.
+Qed.
+
+Lemma read_point_coord_app x t lg : u64 x -> nonfinite_bits x = false ->
+  read_point_coord ((le_bytes 8 x ++ t) @ lg) = (x, t @ lg).
+Proof. intros Hx Hf. unfold read_point_coord. rewrite read_u64_app by auto. cbn [failed d_st negb andb]. now rewrite Hf. Qed.
+Lemma read_vertex_app p t lg : vertex_ok p -> read_vertex ((enc_point p ++ t) @ lg) = (p, t @ lg).
+Proof.
+  destruct p as [[x y] z]. intros ((Hx & Hy & Hz) & Fx & Fy & Fz). unfold read_vertex, enc_point. norm_app.
+  rewrite read_point_coord_app by auto. rewrite read_point_coord_app by auto. now rewrite read_point_coord_app by auto.
 Qed.
 
 Lemma version_byte_val : version_byte = 1.
@@ -100,8 +113,13 @@ Lemma decode_cellid_body_app id t lg : u64 id ->
 Proof. intros H. unfold decode_cellid_body, encode_cellid. now apply read_u64_app. Qed.
 Lemma roundtrip_cellid id : u64 id -> decode_cellid (encode_cellid id) = Ok id.
 Proof. intros H. apply run_app. intros t lg. exists lg. now apply decode_cellid_body_app. Qed.
-Lemma roundtrip_cell id : u64 id -> decode_cell (encode_cell id) = Ok id.
-Proof. exact (roundtrip_cellid id). Qed.
+Lemma decode_cell_body_app id t lg : u64 id -> s2_CellID_IsValid id = true ->
+  decode_cell_body ((encode_cellid id ++ t) @ lg) = (id, t @ lg).
+Proof.
+  intros H V. unfold decode_cell_body, encode_cellid. rewrite read_u64_app by auto. cbn [failed d_st]. now rewrite V.
+Qed.
+Lemma roundtrip_cell id : u64 id -> s2_CellID_IsValid id = true -> decode_cell (encode_cell id) = Ok id.
+Proof. intros H V. apply run_app. intros t lg. exists lg. now apply decode_cell_body_app. Qed.
 
 (** ** Sequences *)
 Lemma many_step {A} (rd1 : dec -> A * dec) acc bs lg :
@@ -158,7 +176,8 @@ Lemma max_cells_val : s2_CellUnion_decode_maxCells = 1000000. Proof. reflexivity
 Lemma max_make_val : max_make = 140737488355328. Proof. reflexivity. Qed.
 
 (** ** CellUnion *)
-Lemma decode_cellunion_body_app ids t lg : Forall u64 ids -> len ids <= s2_CellUnion_decode_maxCells ->
+Definition cellid_ok (id : Z) : Prop := u64 id /\ s2_CellID_IsValid id = true.
+Lemma decode_cellunion_body_app ids t lg : Forall cellid_ok ids -> len ids <= s2_CellUnion_decode_maxCells ->
   exists lg', decode_cellunion_body ((encode_cellunion ids ++ t) @ lg) = (ids, t @ lg').
 Proof.
   intros Hids Hn. pose proof (len_nonneg ids) as Hn0. rewrite max_cells_val in Hn.
@@ -169,10 +188,10 @@ Proof.
   replace ((len ids <? 0) || (s2_CellUnion_decode_maxCells <? len ids)) with false.
   2:{ symmetry. apply orb_false_iff. rewrite max_cells_val. split; apply Z.ltb_ge; lia. }
   rewrite go_make_ok by (rewrite max_make_val; lia).
-  apply read_many_app. intros x t' lg' Hx. exists lg'. apply decode_cellid_body_app.
-  rewrite Forall_forall in Hids. now apply Hids.
+  apply read_many_app. intros x t' lg' Hx. exists lg'.
+  rewrite Forall_forall in Hids. destruct (Hids x Hx). now apply decode_cell_body_app.
 Qed.
-Lemma roundtrip_cellunion ids : Forall u64 ids -> len ids <= s2_CellUnion_decode_maxCells ->
+Lemma roundtrip_cellunion ids : Forall cellid_ok ids -> len ids <= s2_CellUnion_decode_maxCells ->
   decode_cellunion (encode_cellunion ids) = Ok ids.
 Proof. intros H1 H2. apply run_app. intros t lg. now apply decode_cellunion_body_app. Qed.
 
@@ -190,7 +209,7 @@ Proof.
 Qed.
 
 (** ** Polyline *)
-Lemma decode_polyline_body_app ps t lg : Forall point_ok ps -> len ps <= s2_maxEncodedVertices ->
+Lemma decode_polyline_body_app ps t lg : Forall vertex_ok ps -> len ps <= s2_maxEncodedVertices ->
   exists lg', decode_polyline_body ((encode_polyline ps ++ t) @ lg) = (ps, t @ lg').
 Proof.
   intros Hps Hn. pose proof (len_nonneg ps) as Hn0. rewrite max_vertices_val in Hn.
@@ -199,10 +218,10 @@ Proof.
   rewrite wrap_u32_small by lia. rewrite read_u32_app by lia. cbn [failed d_st].
   replace (s2_maxEncodedVertices <? len ps) with false by (symmetry; apply Z.ltb_ge; rewrite max_vertices_val; lia).
   rewrite go_make_ok by (rewrite max_make_val; lia).
-  apply read_many_app. intros x t' lg' Hx. exists lg'. apply read_point_app.
+  apply read_many_app. intros x t' lg' Hx. exists lg'. apply read_vertex_app.
   rewrite Forall_forall in Hps. now apply Hps.
 Qed.
-Lemma roundtrip_polyline ps : Forall point_ok ps -> len ps <= s2_maxEncodedVertices ->
+Lemma roundtrip_polyline ps : Forall vertex_ok ps -> len ps <= s2_maxEncodedVertices ->
   decode_polyline (encode_polyline ps) = Ok ps.
 Proof. intros H1 H2. apply run_app. intros t lg. now apply decode_polyline_body_app. Qed.
 
@@ -236,9 +255,9 @@ Proof.
   rewrite wrap_u32_small by lia. rewrite read_u32_app by lia.
   replace (s2_maxEncodedVertices <? len vs) with false by (symmetry; apply Z.ltb_ge; rewrite max_vertices_val; lia).
   rewrite go_make_ok by (rewrite max_make_val; lia).
-  destruct (read_many_app read_point enc_point vs
+  destruct (read_many_app read_vertex enc_point vs
               (enc_bool oi ++ le_bytes 4 (wrap_u32 dep) ++ encode_rect bnd ++ t) ((AVertices, len vs) :: lg)) as [lg1 E1].
-  { intros x t' lg' Hx. exists lg'. apply read_point_app. rewrite Forall_forall in Hvs. now apply Hvs. }
+  { intros x t' lg' Hx. exists lg'. apply read_vertex_app. rewrite Forall_forall in Hvs. now apply Hvs. }
   rewrite E1. rewrite read_bool_app. rewrite wrap_u32_small by lia. rewrite read_u32_app by lia.
   rewrite decode_rect_body_app by auto. rewrite wrap_i64_small by lia.
   exists lg1. reflexivity.
@@ -306,6 +325,6 @@ Example roundtrip_loop_example :
   loop_ok l /\ decode_loop (encode_loop l) = Ok l.
 Proof.
   split.
-  - repeat split; cbn; try lia; repeat constructor; cbn; unfold u64; try lia; discriminate.
+  - repeat split; cbn; try lia; repeat constructor; cbn; unfold u64; try lia; try discriminate; try reflexivity.
   - vm_compute. reflexivity.
 Qed.
